@@ -15,4 +15,6 @@ for d in seeded/C*/; do
 done
 out=$(cd $REPO && git apply --unsafe-paths $OLDPWD/seeded/REFACTOR-1/patch.diff && cd - >/dev/null && for c in C01 C02 C03 C04 C06 C07 C14; do timeout 2400 bin/check $c >/dev/null 2>&1; echo -n "$c=$? "; done; cd $REPO && git checkout -- .)
 echo "REGRESS REFACTOR-1 $out"
+out=$(cd $REPO && git apply --unsafe-paths $OLDPWD/seeded/REFACTOR-2/patch.diff && cd - >/dev/null && for c in C01 C02 C03 C04 C05 C06 C07 C08 C09 C10 C12 C13 C14 C15 C17 C18; do timeout 2400 bin/check $c >/dev/null 2>&1; echo -n "$c=$? "; done; cd $REPO && git checkout -- .)
+echo "REGRESS REFACTOR-2 $out"
 echo REGRESS-DONE
